@@ -146,6 +146,19 @@ def run_property(pid, tier, repo):
                 merged[v.key].config += ',' + rep.config
             else:
                 merged[v.key] = v
+    # a rule that could not find what it is anchored on (a function, a call, the shape it reads) did not show its clause:
+    # that is a finding about the tree, reported like one - not an unsoundness of the machinery (audits, dead rules and
+    # exceptions stay machinery errors, exit 2)
+    from core import Violation
+    import re as _re
+    anchors = [m for m in machinery if _re.search(r'\] (ANCHOR|FLOOR)', m)]
+    machinery = [m for m in machinery if m not in anchors]
+    for m in anchors:
+        txt = m.split('] ', 1)[-1]
+        key = 'ANCHOR|' + _re.sub(r'\d+', 'N', txt)[:120]
+        if key not in merged:
+            merged[key] = Violation(pid, 'ANCHOR', key, 'src/', 'a rule of this check could not be evaluated on this tree, so the clause it '
+                                    'decides is not shown to hold: ' + txt, config=m.split(']')[0].lstrip('['))
     unknown = []
     known_hits = []
     for key, v in merged.items():
